@@ -14,7 +14,7 @@ open LruMem.MemSize
 def noHash : Ty → Bool
   | .hashSet .. | .hashMap .. => false
   -- a user type's report is whatever its author wrote: outside the statement about std's owned buffers
-  | .user _ => false
+  | .user _ | .userDyn => false
   | .ref _ t | .box _ t | .slice t | .array _ _ t | .option _ t | .wrapping _ t | .range2 _ t
   | .range1 _ t | .lock _ t | .vec _ t | .binaryHeap _ t => noHash t
   | .result _ t e => noHash t && noHash e
